@@ -287,6 +287,7 @@ func exprGrammar(ops string) *gspec {
 }
 
 func genPrec(w *tr.W, r *rng.R, thorough bool) {
+	count := r.Intn(6)
 	for _, ops := range []string{"p", "pq", "pqt"} {
 		asgs := precAssignments(ops)
 		// partial declarations: one operator missing from every level
@@ -300,7 +301,13 @@ func genPrec(w *tr.W, r *rng.R, thorough bool) {
 			g := exprGrammar(ops)
 			g.prec = a
 			var opl []string
-			opl = append(opl, "B slr", "B lalr", "B clr", "W", "W i", "W lir", "W ii")
+			// SLR always; LALR and canonical LR (slower) for every case in the thorough tier, 1 in 6 otherwise
+			opl = append(opl, "B slr")
+			if thorough || count%6 == 0 {
+				opl = append(opl, "B lalr", "B clr")
+			}
+			count++
+			opl = append(opl, "W", "W i", "W lir", "W ii")
 			for i := 0; i < len(ops); i++ {
 				opl = append(opl, "W i"+string(ops[i])+"i", "W i"+string(ops[i]), "W li"+string(ops[i])+"ir")
 				for j := 0; j < len(ops); j++ {
@@ -313,21 +320,21 @@ func genPrec(w *tr.W, r *rng.R, thorough bool) {
 				nrand = 40
 			}
 			for k := 0; k < nrand; k++ {
-				opl = append(opl, "W "+randExpr(r, ops, r.Range(2, 4)))
+				opl = append(opl, "W "+randExpr(r, ops, r.Range(2, 3)))
 			}
 			runCase(w, g, opl)
 		}
 	}
 }
 
-// random expression with the given number of operators (length 2k+1, at most one parenthesised group)
+// random expression with the given number of operators (length 2k+1 <= 7, at most one parenthesised group)
 func randExpr(r *rng.R, ops string, k int) string {
 	var b []byte
 	b = append(b, 'i')
 	for i := 0; i < k; i++ {
 		b = append(b, ops[r.Intn(len(ops))], 'i')
 	}
-	if r.Chance(1, 3) && k >= 2 {
+	if r.Chance(1, 3) && k == 2 {
 		// parenthesise operands j..j+1
 		j := r.Intn(k)
 		s := string(b[:2*j]) + "l" + string(b[2*j:2*j+3]) + "r" + string(b[2*j+3:])
